@@ -786,9 +786,17 @@ def mini_exec(fn: ast.FunctionDef, args: Dict[str, object], budget: int = 2000, 
             if isinstance(recv, SampleObj):
                 m = methods[e.func.attr]
                 ps = [a.arg for a in m.args.args]
-                call_args = {ps[0]: recv}
-                for pn, ax in zip(ps[1:], e.args):
+                if any(isinstance(d_, ast.Name) and d_.id == "staticmethod" for d_ in m.decorator_list):
+                    call_args = {}
+                    rest = ps
+                else:
+                    call_args = {ps[0]: recv}
+                    rest = ps[1:]
+                for pn, ax in zip(rest, e.args):
                     call_args[pn] = ev(ax)
+                for p_, d_ in zip(ps[len(ps) - len(m.args.defaults):], m.args.defaults):
+                    if p_ not in call_args and not any(k.arg == p_ for k in e.keywords):
+                        call_args[p_] = ev(d_)
                 for k in e.keywords:
                     if k.arg:
                         call_args[k.arg] = ev(k.value)
@@ -839,6 +847,19 @@ def mini_exec(fn: ast.FunctionDef, args: Dict[str, object], budget: int = 2000, 
                 except (TypeError, ValueError, IndexError, KeyError) as ex:
                     raise _PathEval.Unknown(f"{e.func.attr}() on these samples: {ex}")
                 return list(r_) if e.func.attr in ("values", "keys", "items") else r_
+        if isinstance(e, ast.JoinedStr):
+            out_ = []
+            for v_ in e.values:
+                if isinstance(v_, ast.Constant):
+                    out_.append(str(v_.value))
+                elif isinstance(v_, ast.FormattedValue) and v_.format_spec is None and v_.conversion == -1:
+                    x_ = ev(v_.value)
+                    if isinstance(x_, (SampleObj, ClassTok)) or callable(x_):
+                        raise _PathEval.Unknown("a sample object formatted into text")
+                    out_.append(str(x_))
+                else:
+                    raise _PathEval.Unknown("format specification in an f-string")
+            return "".join(out_)
         if isinstance(e, ast.Lambda) and not e.args.kwonlyargs and not e.args.vararg and not e.args.kwarg:
             ps_ = [a.arg for a in e.args.args]
 
